@@ -38,7 +38,14 @@ def scenarios(tier, seed):
         out.append(scenario("%s-refresh-race" % b, b, [dict(profile="samebank_altrow", ncmd=cyc + 40, gap=cyc - 3, partial=0.0),
                                                      dict(profile="pingpong", ncmd=(cyc + 40) // 2, gap=2 * cyc - 7, seed=5)],
                             seed * 3 + 1, tech=dict(tREFI=refi_ns), max_cycles=400000))
+    # re-trigger sweep: a second write at every offset inside the first one's write-recovery / write-to-read count-down
+    for b, then, ap in ([("DDR3", "pre", False), ("DDR3", "wtr", True), ("SDR", "pre", True)] if tier == "quick" else
+                        [(b, t, ap) for b in ("SDR", "DDR", "DDR2", "DDR3", "DDR3_half", "DDR4") for t in ("pre", "wtr") for ap in (False, True)]):
+        out.append(scenario("%s-gapsweep-%s-%s" % (b, then, "ap" if ap else "noap"), b,
+                            [dict(profile="gapsweep", ncmd=4 * 32, span=32, then=then, partial=0.0)], seed + 3,
+                            tech=dict(tREFI=3000), ctrl=dict(with_auto_precharge=ap)))
     from . import c02
+    out.append(dict(name="lockstep-gates", kind="lockstep-gates", seed=seed * 5 + 1, ncyc=4000 if tier == "quick" else 20000))
     out.append(dict(name="apalache-txxd-inductive", kind="apalache-txxd", seed=seed))
     return out + c02.lockstep_scenarios(tier, seed)[:2] + mux_lockstep_scenarios(tier, seed) + muxr_lockstep_scenarios(tier, seed)[2:]
 
@@ -64,6 +71,20 @@ def muxr_lockstep_scenarios(tier, seed):
                 dict(nb=4, nph=4, rdphase=1, wrphase=0, read_latency=6, cwl=4, tWTR=3, tFAW=4, tCCD=2, tRRD=3, read_time=16, write_time=8, pref=0.04)]
     return [dict(name="lockstep-multiplexer-refresh-%d" % j, kind="lockstep-muxr", seed=seed * 29 + j, ncyc=3000 if tier == "quick" else 12000, params=v)
             for j, v in enumerate(variants if tier == "quick" else variants * 3)]
+
+
+def _lockstep_gates(sc, workdir):
+    """tXXDController / tFAWController against D_Gates (whose contract TLC checks in MC_Gates): a note, never a verdict."""
+    from .. import gatelock
+    r = gatelock.run_gates(sc, workdir)
+    notes = []
+    if r["mismatches"] or r["broken"]:
+        x = (r["broken"] or r["mismatches"])[0]
+        notes.append("MODEL-DRIFT module=tXXDController/tFAWController cycle=%s %s (D_Gates no longer equals the code; the gate contract checked by "
+                     "TLC is not bound)" % (x[0], x[1:]))
+    return dict(bad=[], evaluations=r["cycles"], nontrivial=[["lockstep", sc["name"]]], traces=1,
+                sample=dict(triggers=r["triggers"], first=r["sample"][:2]), notes=notes,
+                lockstep=r["cycles"], stats=dict(lockstep_cycles=r["cycles"], gate_triggers=r["triggers"]))
 
 
 def _lockstep_mux(sc, workdir):
@@ -115,7 +136,8 @@ def _apalache_txxd(sc, workdir):
 
 
 def mux_models(tier, seed):
-    return [dict(module="MC_Multiplexer", cfg="MC_Multiplexer_quick.cfg", label="multiplexer gates tRRD/tCCD/tWTR, phases (2 banks, 2 phases, zero slack)", workers=3, timeout=2400),
+    return [dict(module="MC_Gates", cfg="MC_Gates.cfg", label="tXXD / tFAW gates: ready only txxd cycles after the last trigger (re-triggers included), at most four activates per window", workers=2, timeout=900),
+            dict(module="MC_Multiplexer", cfg="MC_Multiplexer_quick.cfg", label="multiplexer gates tRRD/tCCD/tWTR, phases (2 banks, 2 phases, zero slack)", workers=3, timeout=2400),
             dict(module="MC_Multiplexer", cfg="MC_Multiplexer_neg_wtr.cfg", label="negative control: write-to-read gate one cycle short", workers=2, timeout=1800, expect_violation=True),
             dict(module="MC_Multiplexer", cfg="MC_Multiplexer_cover_rtw.cfg", label="cover: RTW turn-around", workers=1, timeout=900, expect_violation=True),
             dict(module="MC_Multiplexer", cfg="MC_Multiplexer_cover_wtr.cfg", label="cover: WTR waiting for the gate", workers=1, timeout=900, expect_violation=True)]
@@ -139,6 +161,8 @@ def execute(sc, workdir):
         return _b3_mux(sc, workdir)
     if sc.get("kind") == "apalache-txxd":
         return _apalache_txxd(sc, workdir)
+    if sc.get("kind") == "lockstep-gates":
+        return _lockstep_gates(sc, workdir)
     r = execute_core(sc, workdir, ID, ("dev",))
     r["nontrivial"] = [[sc["memtype"], sc["clk_khz"], k] for k in r["kinds"] if k in ("ACT", "PRE", "PREA", "RD", "WR", "REF", "ZQCS")]
     return r
